@@ -17,7 +17,9 @@ CHECKS["C19"] = {
         {"pkg": "gbnprop", "run": "TestC19EnumBytes", "kind": "plain"},
         {"pkg": "gbnprop", "run": "TestC19Rapid", "checks": (20000, 300000), "shards": (1, 4)},
         {"pkg": "mboxprop", "run": "TestC19MsgDataEnum", "kind": "plain"},
+        {"pkg": "gbnprop", "run": "TestC19ReusedValue", "checks": (20000, 400000), "shards": (1, 4)},
         {"pkg": "gbnprop", "run": "TestC19History", "checks": (20000, 400000), "shards": (1, 4)},
+        {"pkg": "mboxprop", "run": "TestC19MsgDataReused", "checks": (20000, 400000), "shards": (1, 4)},
         {"pkg": "mboxprop", "run": "TestC19MsgDataHistory", "checks": (20000, 400000), "shards": (1, 4)},
         {"pkg": "mboxprop", "run": "TestC19MsgDataRapid", "checks": (20000, 300000), "shards": (1, 4)},
         {"pkg": "gbnprop", "run": "FuzzC19GBN", "kind": "fuzz", "fuzztime": (0, 60), "tiers": ("thorough",), "parallel": 8},
